@@ -17,7 +17,7 @@ ENGINES["scn"] = {"path": "harness/src/scn.rs (+ prog.rs)",
     "kind": "whole walks over synthesized programs with ground truth: functions from the standard prologue/epilogue shapes with real instruction bytes and the CFI rows that exactly describe every instruction boundary (x86-64: frame-pointer based, frameless with pushes/allocation incl. rbp saved and clobbered, leaf, noreturn tail call; aarch64: stp-pre-index and sub/stp/add frames, leaf, return-address signing with DW_CFA_AARCH64_negate_ra_state), call chains of depth 1-7, every interruption point of the innermost frame, three presentations, both allocation policies, missing unwind info in five ways (C04), every truncation cut (C11), relocation/presentation twins (C08/C12). Ground truth from a machine-state simulator, re-validated step by step by the Lean driver's dwarfSpec before it is used"}
 
 ENGINES["pe"] = {"path": "harness/src/pe.rs",
-    "kind": "PE x64: writer for .pdata / UNWIND_INFO (.xdata) and .text; synthesized programs over the MS prolog/epilog grammar (push non-volatiles, alloc small/large, set frame register, save non-volatile by mov, functions split into chained fragments, leaf functions without table entry), walks with ground truth at every instruction boundary (prolog, body, epilog); differential part on arbitrary registers/stacks incl. unusual codes (xmm, machine frame, raw large allocations) against the Lean model and against pe-unwind-info's reference implementation of the Microsoft procedure; exhaustive register-order sweep through the hooks"}
+    "kind": "PE x64 (incl. a boundary grid over section RVA ranges / data lengths / RVAs for pe.rs memory_at_rva through a hook, vs FH/PeMem.lean): writer for .pdata / UNWIND_INFO (.xdata) and .text; synthesized programs over the MS prolog/epilog grammar (push non-volatiles, alloc small/large, set frame register, save non-volatile by mov, functions split into chained fragments, leaf functions without table entry), walks with ground truth at every instruction boundary (prolog, body, epilog); differential part on arbitrary registers/stacks incl. unusual codes (xmm, machine frame, raw large allocations) against the Lean model and against pe-unwind-info's reference implementation of the Microsoft procedure; exhaustive register-order sweep through the hooks"}
 
 ENGINES["macho"] = {"path": "harness/src/macho.rs (+ prog.rs)",
     "kind": "Mach-O: writer for __unwind_info (regular and compressed second-level pages, global and page-local opcode tables, merged entries), opcode encoders incl. the register permutation, text bytes as __text or __TEXT, __eh_frame for DWARF-deferred entries, __stubs/__stub_helper ranges; synthesized programs (x86-64: frame-based, frameless immediate, frameless indirect, DWARF; arm64: frame-based with Apple's frame record placement, frameless leaf, DWARF, pacibsp/retab) with simulator ground truth: walks and single steps (caller sp/fp compared) at every instruction boundary of the innermost function, threads stopped inside __stubs and at every phase of __stub_helper; plus random tables (every opcode kind incl. invalid/unrecognised, text complete/partial/shifted/absent, bad FDE offsets) looked up at random addresses and states, compared with the Lean model answer by answer"}
@@ -162,7 +162,7 @@ PROPS = {
         "technique": 'Lean 4 theorems over arbitrary module data (no panic outcome in the plan / compact-unwind dispatch / analysers) + fault injection on the implementation (byte-level corruption of generated and real sections under catch_unwind with overflow checks; this half is testing, not proof)',
         "lean": ["FH.Props.C14"],
         "engines": ["mut", "ana", "macho", "pe"],
-        "level_text": "Theorems over arbitrary module data (tables, opcodes, ranges, text bytes, FDEs, rows all universally quantified - corrupt data included): the instruction analysers are total when the offset lies within the bytes; the compact-unwind dispatch always hands them a slice containing the offset (arbitrary unsorted/overlapping/inverted tables and text ranges), hence never panics; the plan is never `panic` for any module, address and frame kind on both architectures. Partial: the byte-level parsers are third-party and framehop's glue around them (slicing, index construction, range arithmetic) is not modelled at byte level; that part is decided by the mut engine (byte-level corruption of generated and real sections, catch_unwind, overflow checks, panic location attribution, in-flight case file for hangs).",
+        "level_text": "Theorems over arbitrary module data (tables, opcodes, ranges, text bytes, FDEs, rows all universally quantified - corrupt data included): the instruction analysers are total when the offset lies within the bytes; the compact-unwind dispatch always hands them a slice containing the offset (arbitrary unsorted/overlapping/inverted tables and text ranges), hence never panics; the plan is never `panic` for any module, address and frame kind on both architectures; PE RVA -> section memory (memory_at_rva and the .rdata/.xdata search order) on arbitrary, mutually inconsistent section descriptions: a returned slice always lies inside the data, degenerate ranges yield nothing (FH/PeMem.lean, tied through the pe_memory_at_rva hook on a boundary grid). Partial: the byte-level parsers are third-party and framehop's glue around them (slicing, index construction, range arithmetic) is not modelled at byte level; that part is decided by the mut engine (byte-level corruption of generated and real sections, catch_unwind, overflow checks, panic location attribution, in-flight case file for hangs).",
         "level_note": _NOTE + " Panics inside gimli / macho-unwind-info / pe-unwind-info on corrupt bytes are outside the property's letter (framehop's own code) and are reported as NOTE lines with a replay, not as violations.",
         "statement": "No reachable panic outcome in the model's format-specific code for any module data; byte-level hostile inputs by differential-free fault injection on the implementation.",
     },
